@@ -16,28 +16,23 @@ Proof.
   unfold route_ok in H. rewrite Hp in H. cbn [orb] in H. apply orb_true_iff in H. exact H.
 Qed.
 
-Lemma repaired_routes_check : forallb (route_ok shape_now) (repair_routes routes) = true.
+(* every route of the table translated in this run is fine: NO route is exempt (the defects C19-failpoint-public and
+   C19-runtime-config-public are repaired in the repository; a re-appearance breaks this check) *)
+Lemma routes_check : forallb (route_ok shape_now) routes = true.
 Proof. vm_compute. reflexivity. Qed.
 
 Lemma all_nonpublic_authenticated_lemma :
-  forall r, In r (repair_routes routes) -> public r = false ->
-            authenticated shape_now r = true \/ always_rejects r = true.
-Proof. exact (route_table_ok_lift shape_now _ repaired_routes_check). Qed.
+  forall r, In r routes -> public r = false -> authenticated shape_now r = true \/ always_rejects r = true.
+Proof. exact (route_table_ok_lift shape_now _ routes_check). Qed.
 
-(* every route of today's table is fine except, at most, the exactly named known ones *)
-Lemma open_routes_are_known_check : forallb known_open_route (open_routes shape_now routes) = true.
+Lemma no_open_routes_check : open_routes shape_now routes = [].
 Proof. vm_compute. reflexivity. Qed.
-
-Lemma open_routes_are_known : forall r, In r routes -> route_ok shape_now r = false -> known_open_route r = true.
-Proof.
-  intros r Hin Hbad. pose proof open_routes_are_known_check as H. rewrite forallb_forall in H. apply H.
-  unfold open_routes. apply filter_In. split; [exact Hin|]. rewrite Hbad. reflexivity.
-Qed.
 
 Lemma shape_check : shape_ok shape_now = true.
 Proof. vm_compute. reflexivity. Qed.
 
-Lemma no_prefix_bypass_check : repair_prefixes prefixes = [].
+(* prefix rules: only those exempted by an OPEN finding (C19-debug-public) may exist *)
+Lemma no_prefix_bypass_check : unexempt_prefixes open_findings prefixes = [].
 Proof. vm_compute. reflexivity. Qed.
 
 Lemma dispatch_nil : forall g path, dispatch g [] path = None.
@@ -51,23 +46,54 @@ Proof.
   - destruct (IH _ _ H) as [A B]. split; [right; exact A|exact B].
 Qed.
 
-(* a path is taken away from the mux only by one of the three exactly named prefixes *)
-Lemma prefix_bypass_only_known : forall g path p, dispatch g prefixes path = Some p -> known_prefix p = true.
+(* a path is taken away from the mux only by a rule that an open finding names *)
+Lemma prefix_bypass_only_exempt : forall g path p, dispatch g prefixes path = Some p ->
+  exempt_prefix open_findings p = true.
 Proof.
   intros g path p H. apply dispatch_some_in in H. destruct H as [Hin _].
-  destruct (known_prefix p) eqn:E; [reflexivity|].
-  assert (In p (repair_prefixes prefixes)) as Hf.
-  { unfold repair_prefixes. apply filter_In. split; [exact Hin|]. rewrite E. reflexivity. }
+  destruct (exempt_prefix open_findings p) eqn:E; [reflexivity|].
+  assert (In p (unexempt_prefixes open_findings prefixes)) as Hf.
+  { unfold unexempt_prefixes. apply filter_In. split; [exact Hin|]. rewrite E. reflexivity. }
   rewrite no_prefix_bypass_check in Hf. destruct Hf.
 Qed.
 
-Lemma repaired_dispatch_is_mux : forall g path, dispatch g (repair_prefixes prefixes) path = None.
+Lemma exempt_prefix_known : forall open p, exempt_prefix open p = true ->
+  mem "C19-debug-public" open = true /\ known_prefix p = true.
+Proof. intros open p H. unfold exempt_prefix in H. apply andb_true_iff in H. exact H. Qed.
+
+Lemma prefix_bypass_only_open_finding : forall g path p, dispatch g prefixes path = Some p ->
+  mem "C19-debug-public" open_findings = true /\ known_prefix p = true.
+Proof. intros g path p H. apply exempt_prefix_known. exact (prefix_bypass_only_exempt _ _ _ H). Qed.
+
+Lemma repaired_dispatch_is_mux : forall g path, dispatch g (unexempt_prefixes open_findings prefixes) path = None.
 Proof. intros. rewrite no_prefix_bypass_check. reflexivity. Qed.
 
 Lemma cred_facts_check : cred_facts_ok cred_facts_now = true /\ cred_facts_match_model cred_facts_now = true.
 Proof. vm_compute. split; reflexivity. Qed.
 
-Lemma user_ignored_only_known_check : forallb known_ignoring handlers_ignoring_user = true.
+(* handler facts: every handler with the authenticated signature makes an authorization decision on its user, except the
+   routes for which authentication alone is asked and those an OPEN finding names *)
+Lemma guards_check : unguarded open_findings handler_guards = [].
+Proof. vm_compute. reflexivity. Qed.
+
+Lemma guards_forall : forall g, In g handler_guards -> decides g = true \/ guard_exempt open_findings g = true.
+Proof.
+  intros g Hin. destruct (guard_ok open_findings g) eqn:E.
+  - unfold guard_ok in E. apply orb_true_iff in E. exact E.
+  - exfalso. assert (In g (unguarded open_findings handler_guards)) as Hf.
+    { unfold unguarded. apply filter_In. split; [exact Hin|]. rewrite E. reflexivity. }
+    rewrite guards_check in Hf. destruct Hf.
+Qed.
+
+(* the routes the statement names by function make exactly the decision it asks for *)
+Lemma expected_guards_check : forallb (expected_ok handler_guards) expected_guards = true.
+Proof. vm_compute. reflexivity. Qed.
+
+(* and the handler facts cover the table: every route with the authenticated signature has its row *)
+Definition has_guard_row (r : route) : bool :=
+  negb (hsig_eqb (r_sig r) SigUser) ||
+  match find_guard handler_guards (r_method r) (r_pattern r) with Some _ => true | None => false end.
+Lemma guards_cover_routes_check : forallb has_guard_row routes = true.
 Proof. vm_compute. reflexivity. Qed.
 
 (* ------------------------------------------------------------------------------------------------------------ *)
@@ -222,16 +248,31 @@ Qed.
 
 (* ---- specification of "sufficient privilege" ---- *)
 Definition has_priv (u : user) (p : priv) (d : string) : Prop :=
-  u_admin u = true \/ p = NoPriv \/ exists q, lookup (u_privs u) d = Some q /\ (q = p \/ q = AllPriv).
+  u_admin u = true \/ u_rw u = true \/ p = NoPriv \/ exists q, lookup (u_privs u) d = Some q /\ (q = p \/ q = AllPriv).
+
+(* one entry of a statement's requirement list, for an ordinary user *)
+Definition entry_holds (u : user) (db : string) (rp : reqpriv) : Prop :=
+  match rp with
+  | RAdmin | RAdminRw => False
+  | RDb d p => has_priv u p (target_db d db)
+  | RRwAllow | RRwDeny => True
+  end.
+(* a statement, for an account with partition privileges: let through by its case, or not refused by its case and free
+   of entries without the Rwuser flag *)
+Definition rw_allowed (s : stmt) : Prop := In RRwAllow s \/ (~ In RRwDeny s /\ ~ In RAdmin s).
+Definition stmt_allowed (u : user) (db : string) (s : stmt) : Prop :=
+  if u_rw u then rw_allowed s else forall rp, In rp s -> entry_holds u db rp.
+Definition can_see_spec (u : user) (d : string) : Prop := has_priv u ReadPriv d \/ has_priv u WritePriv d.
 
 Definition sufficient (u : user) (k : rkind) (rq : request) : Prop :=
   match k with
   | KPublic => True
   | KOpaque => True
-  | KQuery q => u_admin u = true \/
-                forall s, In s q -> forall rp, In rp s -> exists d p, rp = RDb d p /\ has_priv u p (target_db d (rq_db rq))
+  | KQuery q => u_admin u = true \/ forall s, In s q -> stmt_allowed u (rq_db rq) s
   | KWrite => has_priv u WritePriv (rq_db rq)
   | KAdminOnly => u_admin u = true
+  | KRepoSee => can_see_spec u (rq_db rq)
+  | KListRepos _ => True
   end.
 
 Lemma priv_eqb_eq : forall a b, priv_eqb a b = true <-> a = b.
@@ -240,30 +281,68 @@ Proof. destruct a, b; cbn; split; intro H; try reflexivity; try discriminate. Qe
 Lemma authorize_database_spec : forall u p d, authorize_database u p d = true <-> has_priv u p d.
 Proof.
   intros u p d. unfold authorize_database, has_priv. rewrite !orb_true_iff, priv_eqb_eq. split.
-  - intros [[A|A]|A]; auto. destruct (lookup (u_privs u) d) as [q|] eqn:E; [|discriminate].
-    right. right. exists q. split; [reflexivity|]. apply orb_true_iff in A. rewrite !priv_eqb_eq in A. exact A.
-  - intros [A|[A|(q & E & A)]]; auto. right. rewrite E. apply orb_true_iff. rewrite !priv_eqb_eq. exact A.
+  - intros [[[A|A]|A]|A]; auto. destruct (lookup (u_privs u) d) as [q|] eqn:E; [|discriminate].
+    right. right. right. exists q. split; [reflexivity|]. apply orb_true_iff in A. rewrite !priv_eqb_eq in A. exact A.
+  - intros [A|[A|[A|(q & E & A)]]]; auto. right. rewrite E. apply orb_true_iff. rewrite !priv_eqb_eq. exact A.
+Qed.
+
+Lemma can_see_iff : forall u d, can_see u d = true <-> can_see_spec u d.
+Proof. intros. unfold can_see, can_see_spec. rewrite orb_true_iff, !authorize_database_spec. tauto. Qed.
+
+Lemma existsb_rwallow : forall s, existsb is_rwallow s = true <-> In RRwAllow s.
+Proof.
+  intros s. rewrite existsb_exists. split.
+  - intros (x & Hin & Hx). destruct x; try discriminate. exact Hin.
+  - intro H. exists RRwAllow. split; [exact H|reflexivity].
+Qed.
+Lemma existsb_rwdeny : forall s, existsb is_rwdeny s = true <-> In RRwDeny s.
+Proof.
+  intros s. rewrite existsb_exists. split.
+  - intros (x & Hin & Hx). destruct x; try discriminate. exact Hin.
+  - intro H. exists RRwDeny. split; [exact H|reflexivity].
+Qed.
+
+Lemma authorize_stmt_rw_spec : forall s, authorize_stmt_rw s = true <-> rw_allowed s.
+Proof.
+  intros s. unfold authorize_stmt_rw, rw_allowed.
+  destruct (existsb is_rwallow s) eqn:EA.
+  - apply existsb_rwallow in EA. tauto.
+  - assert (~ In RRwAllow s) as NA. { intro X. apply existsb_rwallow in X. congruence. }
+    destruct (existsb is_rwdeny s) eqn:ED.
+    + apply existsb_rwdeny in ED. split; [discriminate|]. intros [X|[X _]]; contradiction.
+    + assert (~ In RRwDeny s) as ND. { intro X. apply existsb_rwdeny in X. congruence. }
+      rewrite forallb_forall. split.
+      * intro H. right. split; [exact ND|]. intro X. specialize (H _ X). discriminate.
+      * intros [X|[_ X]]; [contradiction|]. intros rp Hrp. destruct rp; try reflexivity. contradiction.
+Qed.
+
+Lemma authorize_stmt_spec : forall u db s, authorize_stmt u db s = true <-> stmt_allowed u db s.
+Proof.
+  intros u db s. unfold authorize_stmt, stmt_allowed. destruct (u_rw u); [apply authorize_stmt_rw_spec|].
+  unfold authorize_stmt_plain. rewrite forallb_forall. split.
+  - intros H rp Hrp. specialize (H rp Hrp). destruct rp as [| |d p| |]; cbn [entry_holds]; try discriminate; auto.
+    apply authorize_database_spec. exact H.
+  - intros H rp Hrp. specialize (H rp Hrp). destruct rp as [| |d p| |]; cbn [entry_holds] in H; try contradiction; auto.
+    apply authorize_database_spec. exact H.
 Qed.
 
 Lemma authorize_query_spec : forall u db q, authorize_query u db q = true <-> sufficient u (KQuery q) (mk_request (mk_creds_in "" "" HNone) db).
 Proof.
   intros u db q. unfold authorize_query, sufficient. cbn [rq_db]. rewrite orb_true_iff, forallb_forall. split.
-  - intros [A|A]; [left; exact A|]. right. intros s Hs rp Hrp. specialize (A s Hs). unfold authorize_stmt in A.
-    rewrite forallb_forall in A. specialize (A rp Hrp). destruct rp as [|d p]; [discriminate|].
-    exists d, p. split; [reflexivity|]. apply authorize_database_spec. exact A.
-  - intros [A|A]; [left; exact A|]. right. intros s Hs. unfold authorize_stmt. apply forallb_forall. intros rp Hrp.
-    destruct (A s Hs rp Hrp) as (d & p & E & Hp). subst. apply authorize_database_spec. exact Hp.
+  - intros [A|A]; [left; exact A|]. right. intros s Hs. apply authorize_stmt_spec. exact (A s Hs).
+  - intros [A|A]; [left; exact A|]. right. intros s Hs. apply authorize_stmt_spec. exact (A s Hs).
 Qed.
 
 Lemma inner_effects_sufficient : forall cfg k rq u,
   auth_enabled cfg = true -> snd (inner cfg k rq (Some u)) <> [] -> sufficient u k rq.
 Proof.
-  intros cfg k rq u Ha H. destruct k as [|q| | |]; cbn [inner] in H; rewrite ?Ha in H; cbn [negb] in H; cbn [sufficient]; auto.
+  intros cfg k rq u Ha H. destruct k as [|q| | | |dbs|]; cbn [inner] in H; rewrite ?Ha in H; cbn [negb] in H; cbn [sufficient]; auto.
   - destruct (authorize_query u (rq_db rq) q) eqn:E; [|cbn in H; congruence].
     apply authorize_query_spec in E. exact E.
   - destruct (authorize_database u WritePriv (rq_db rq)) eqn:E; [|cbn in H; congruence].
     apply authorize_database_spec. exact E.
   - destruct (u_admin u) eqn:E; [reflexivity|cbn in H; congruence].
+  - destruct (can_see u (rq_db rq)) eqn:E; [|cbn in H; congruence]. apply can_see_iff. exact E.
 Qed.
 
 Lemma handler_runs_only_if_authorized_lemma : forall sh cfg us r k rq,
@@ -318,10 +397,11 @@ Lemma insufficient_privilege_rejected_lemma : forall sh cfg us r k rq u,
 Proof.
   intros sh cfg us r k rq u Ha Hadm Hauth Hrej Hv Hns. unfold serve. rewrite Hrej, Hauth.
   rewrite (authenticate_pass_complete _ _ _ _ Ha Hadm Hv).
-  destruct k as [|q| | |]; cbn [inner sufficient] in *; rewrite ?Ha; cbn [negb]; try (exfalso; apply Hns; exact I).
+  destruct k as [|q| | | |dbs|]; cbn [inner sufficient] in *; rewrite ?Ha; cbn [negb]; try (exfalso; apply Hns; exact I).
   - destruct (authorize_query u (rq_db rq) q) eqn:E; [|reflexivity]. exfalso. apply Hns. apply authorize_query_spec in E. exact E.
   - destruct (authorize_database u WritePriv (rq_db rq)) eqn:E; [|reflexivity]. exfalso. apply Hns. apply authorize_database_spec. exact E.
   - destruct (u_admin u) eqn:E; [|reflexivity]. exfalso. apply Hns. reflexivity.
+  - destruct (can_see u (rq_db rq)) eqn:E; [|reflexivity]. exfalso. apply Hns. apply can_see_iff. exact E.
 Qed.
 
 (* and sufficient credentials are accepted: the handler's effect happens *)
@@ -332,10 +412,12 @@ Lemma sufficient_accepted_lemma : forall sh cfg us r k rq u,
 Proof.
   intros sh cfg us r k rq u Ha Hadm Hauth Hrej Hv Hs Hk. unfold serve. rewrite Hrej, Hauth.
   rewrite (authenticate_pass_complete _ _ _ _ Ha Hadm Hv).
-  destruct k as [|q| | |]; cbn [inner sufficient] in *; rewrite ?Ha; cbn [negb]; try congruence.
+  destruct k as [|q| | | |dbs|]; cbn [inner sufficient] in *; rewrite ?Ha; cbn [negb]; try congruence.
   - apply authorize_query_spec in Hs. rewrite Hs. cbn. repeat split; congruence.
   - apply authorize_database_spec in Hs. rewrite Hs. cbn. repeat split; congruence.
   - rewrite Hs. cbn. repeat split; congruence.
+  - apply can_see_iff in Hs. rewrite Hs. cbn. repeat split; congruence.
+  - cbn. repeat split; congruence.
   - cbn. repeat split; congruence.
 Qed.
 
@@ -410,17 +492,17 @@ Proof.
   destruct (u_name u =? n)%string eqn:E; [|reflexivity].
   apply String.eqb_eq in E. pose proof (find_user_name _ _ _ F) as X.
   destruct H as [H|H]; [congruence|].
-  unfold authorize_database, set_priv_user. cbn [u_admin u_privs]. rewrite lookup_set_key_other; [reflexivity|exact H].
+  unfold authorize_database, set_priv_user. cbn [u_admin u_rw u_privs]. rewrite lookup_set_key_other; [reflexivity|exact H].
 Qed.
 
 (* and for that pair the answer becomes exactly what the new privilege says *)
 Lemma set_privilege_effect : forall us n d p u q,
-  find_user us n = Some u -> u_admin u = false ->
+  find_user us n = Some u -> u_admin u = false -> u_rw u = false ->
   authorize_by_name (set_privilege us n d p) n q d = priv_eqb q NoPriv || (priv_eqb p q || priv_eqb p AllPriv).
 Proof.
-  intros us n d p u q F Hna. unfold authorize_by_name. rewrite find_user_set_privilege, F.
+  intros us n d p u q F Hna Hnr. unfold authorize_by_name. rewrite find_user_set_privilege, F.
   rewrite (find_user_name _ _ _ F), String.eqb_refl.
-  unfold authorize_database, set_priv_user. cbn [u_admin u_privs]. rewrite Hna, lookup_set_key_same. reflexivity.
+  unfold authorize_database, set_priv_user. cbn [u_admin u_rw u_privs]. rewrite Hna, Hnr, lookup_set_key_same. reflexivity.
 Qed.
 
 (* credentials, administrator flag and the set of names are untouched by GRANT / REVOKE *)
@@ -438,10 +520,10 @@ Lemma grant_revoke_exact_lemma : forall us n d p n' d' q,
 Proof. intros. unfold grant, revoke. split; apply set_privilege_exact; assumption. Qed.
 
 Lemma revoke_effect_lemma : forall us n d p u,
-  find_user us n = Some u -> u_admin u = false -> p <> NoPriv ->
+  find_user us n = Some u -> u_admin u = false -> u_rw u = false -> p <> NoPriv ->
   authorize_by_name (revoke us n d p) n p d = false.
 Proof.
-  intros us n d p u F Hna Hp. unfold revoke. rewrite (set_privilege_effect _ _ _ _ _ _ F Hna).
+  intros us n d p u F Hna Hnr Hp. unfold revoke. rewrite (set_privilege_effect _ _ _ _ _ _ F Hna Hnr).
   destruct p; [congruence| | |reflexivity]; destruct (user_priv us n d); reflexivity.
 Qed.
 
@@ -453,10 +535,10 @@ Lemma required_privileges_match_check : list_eqb stmt_priv_eqb gen_privs model_p
 Proof. vm_compute. reflexivity. Qed.
 
 (* a statement whose requirement list contains an Admin entry is refused for every non-administrator *)
-Lemma admin_requirement_refuses : forall u dflt s, In RAdmin s -> u_admin u = false -> authorize_query u dflt [s] = false.
+Lemma admin_requirement_refuses : forall u dflt s, In RAdmin s -> u_admin u = false -> u_rw u = false -> authorize_query u dflt [s] = false.
 Proof.
-  intros u dflt s Hin Hna. unfold authorize_query. rewrite Hna. cbn [orb forallb]. rewrite andb_true_r.
-  unfold authorize_stmt. destruct (forallb _ s) eqn:E; [|reflexivity].
+  intros u dflt s Hin Hna Hnr. unfold authorize_query. rewrite Hna. cbn [orb forallb]. rewrite andb_true_r.
+  unfold authorize_stmt. rewrite Hnr. unfold authorize_stmt_plain. destruct (forallb _ s) eqn:E; [|reflexivity].
   rewrite forallb_forall in E. specialize (E RAdmin Hin). discriminate.
 Qed.
 
@@ -466,13 +548,15 @@ Lemma every_requirement_must_hold : forall u dflt s d p,
   authorize_query u dflt [s] = false.
 Proof.
   intros u dflt s d p Hin Hna Hno. unfold authorize_query. rewrite Hna. cbn [orb forallb]. rewrite andb_true_r.
-  unfold authorize_stmt. destruct (forallb _ s) eqn:E; [|reflexivity].
+  assert (u_rw u = false) as Hnr.
+  { unfold authorize_database in Hno. destruct (u_rw u); [|reflexivity]. rewrite orb_true_r in Hno. discriminate. }
+  unfold authorize_stmt. rewrite Hnr. unfold authorize_stmt_plain. destruct (forallb _ s) eqn:E; [|reflexivity].
   rewrite forallb_forall in E. specialize (E _ Hin). cbn in E. congruence.
 Qed.
 
 (* statement types that are administrator-only in the table *)
 Definition admin_only_type (ty : string) : bool :=
-  match required_of model_privs ty "" with Some s => existsb (fun r => match r with RAdmin => true | _ => false end) s | None => false end.
+  match required_of model_privs ty "" with Some s => existsb (fun r => match r with RAdmin | RAdminRw => true | _ => false end) s | None => false end.
 Lemma admin_only_types_check :
   forallb admin_only_type ["CreateDatabaseStatement"; "DropDatabaseStatement"; "CreateUserStatement"; "DropUserStatement";
     "GrantStatement"; "GrantAdminStatement"; "RevokeStatement"; "RevokeAdminStatement"; "SetPasswordUserStatement";
@@ -484,12 +568,14 @@ Proof. vm_compute. reflexivity. Qed.
 (* ------------------------------------------------------------------------------------------------------------ *)
 (* GRANT / REVOKE at the level of `serve` *)
 Definition stmt_mentions (db d : string) (s : stmt) : bool :=
-  existsb (fun rp => match rp with RAdmin => false | RDb d0 _ => String.eqb (target_db d0 db) d end) s.
+  existsb (fun rp => match rp with RDb d0 _ => String.eqb (target_db d0 db) d | _ => false end) s.
 (* does handling the request consult the privilege on database d ? *)
 Definition mentionsb (k : rkind) (rq : request) (d : string) : bool :=
   match k with
   | KQuery q => existsb (stmt_mentions (rq_db rq) d) q
   | KWrite => String.eqb (rq_db rq) d
+  | KRepoSee => String.eqb (rq_db rq) d
+  | KListRepos dbs => mem d dbs
   | _ => false
   end.
 
@@ -501,22 +587,40 @@ Definition map_auth (f : user -> user) (r : auth_result) : auth_result :=
 Lemma authorize_database_other_db : forall u d p q d', d' <> d ->
   authorize_database (set_priv_user u d p) q d' = authorize_database u q d'.
 Proof.
-  intros. unfold authorize_database, set_priv_user. cbn [u_admin u_privs]. rewrite lookup_set_key_other; [reflexivity|assumption].
+  intros. unfold authorize_database, set_priv_user. cbn [u_admin u_rw u_privs]. rewrite lookup_set_key_other; [reflexivity|assumption].
+Qed.
+
+Lemma can_see_other_db : forall u d p d', d' <> d -> can_see (set_priv_user u d p) d' = can_see u d'.
+Proof. intros. unfold can_see. rewrite !authorize_database_other_db by assumption. reflexivity. Qed.
+
+Lemma mem_false_neq : forall x l y, mem x l = false -> In y l -> y <> x.
+Proof.
+  intros x l y H Hin E. subst y. unfold mem in H.
+  assert (existsb (String.eqb x) l = true) as X. { apply existsb_exists. exists x. split; [exact Hin|apply String.eqb_refl]. }
+  congruence.
+Qed.
+
+Lemma visible_unmentioned : forall u d p dbs, mem d dbs = false ->
+  visible_repositories (set_priv_user u d p) dbs = visible_repositories u dbs.
+Proof.
+  intros u d p dbs H. unfold visible_repositories. apply filter_ext_in. intros x Hx.
+  apply can_see_other_db. exact (mem_false_neq _ _ _ H Hx).
 Qed.
 
 Lemma authorize_stmt_unmentioned : forall u d p db s, stmt_mentions db d s = false ->
   authorize_stmt (set_priv_user u d p) db s = authorize_stmt u db s.
 Proof.
-  intros u d p db s. unfold authorize_stmt, stmt_mentions. induction s as [|rp s IH]; intro H; [reflexivity|].
+  intros u d p db s. unfold authorize_stmt. cbn [set_priv_user u_rw]. destruct (u_rw u); [reflexivity|].
+  unfold authorize_stmt_plain, stmt_mentions. induction s as [|rp s IH]; intro H; [reflexivity|].
   cbn [existsb forallb] in *. apply orb_false_iff in H. destruct H as [H1 H2]. rewrite (IH H2).
-  destruct rp as [|d0 q]; [reflexivity|]. apply str_eqb_false in H1.
+  destruct rp as [| |d0 q| |]; try reflexivity. apply str_eqb_false in H1.
   rewrite authorize_database_other_db; [reflexivity|exact H1].
 Qed.
 
 Lemma inner_unmentioned : forall cfg k rq u d p, mentionsb k rq d = false ->
   inner cfg k rq (Some (set_priv_user u d p)) = inner cfg k rq (Some u).
 Proof.
-  intros cfg k rq u d p H. destruct k as [|q| | |]; cbn [inner mentionsb] in *; try reflexivity.
+  intros cfg k rq u d p H. destruct k as [|q| | | |dbs|]; cbn [inner mentionsb] in *; try reflexivity.
   - destruct (negb (auth_enabled cfg)); [reflexivity|].
     assert (authorize_query (set_priv_user u d p) (rq_db rq) q = authorize_query u (rq_db rq) q) as ->; [|reflexivity].
     unfold authorize_query. cbn [set_priv_user u_admin]. f_equal.
@@ -524,6 +628,9 @@ Proof.
     rewrite (IH H2), (authorize_stmt_unmentioned _ _ _ _ _ H1). reflexivity.
   - destruct (negb (auth_enabled cfg)); [reflexivity|]. apply str_eqb_false in H.
     rewrite authorize_database_other_db; [reflexivity|exact H].
+  - destruct (negb (auth_enabled cfg)); [reflexivity|]. apply str_eqb_false in H.
+    rewrite can_see_other_db; [reflexivity|exact H].
+  - destruct (negb (auth_enabled cfg)); [reflexivity|]. rewrite visible_unmentioned; [reflexivity|exact H].
 Qed.
 
 Lemma set_privilege_admin_exists' : forall us n d p, admin_exists (set_privilege us n d p) = admin_exists us.
@@ -575,15 +682,154 @@ Proof. intros. unfold grant, revoke. split; apply serve_set_privilege_exact; ass
    (write) request of a non-administrator n on d is served iff p covers it *)
 Lemma serve_after_grant : forall sh cfg us r n d p u c want,
   auth_enabled cfg = true -> admin_exists us = true -> authenticated sh r = true -> always_rejects r = false ->
-  authenticate cfg us c = Pass (Some u) -> u_name u = n -> u_admin u = false -> want <> NoPriv ->
+  authenticate cfg us c = Pass (Some u) -> u_name u = n -> u_admin u = false -> u_rw u = false -> want <> NoPriv ->
   fst (serve sh cfg (grant us n d p) r (KQuery [[RDb "" want]]) (mk_request c d)) =
     if priv_eqb p want || priv_eqb p AllPriv then 200 else 403.
 Proof.
-  intros sh cfg us r n d p u c want Ha Hadm Hauth Hrej E Hn Hna Hw. unfold serve, grant. rewrite Hrej, Hauth.
+  intros sh cfg us r n d p u c want Ha Hadm Hauth Hrej E Hn Hna Hnr Hw. unfold serve, grant. rewrite Hrej, Hauth.
   rewrite authenticate_set_privilege. cbn [rq_creds]. rewrite E. cbn [map_auth]. unfold upd_user. rewrite Hn, String.eqb_refl.
-  cbn [inner]. rewrite Ha. cbn [negb]. unfold authorize_query, authorize_stmt. cbn [set_priv_user u_admin forallb rq_db].
-  rewrite Hna. cbn [orb]. unfold target_db. cbn [String.eqb]. unfold authorize_database. cbn [set_priv_user u_admin u_privs].
-  rewrite Hna, lookup_set_key_same. cbn [orb].
+  cbn [inner]. rewrite Ha. cbn [negb]. unfold authorize_query, authorize_stmt. cbn [set_priv_user u_admin u_rw forallb rq_db].
+  rewrite Hna, Hnr. unfold authorize_stmt_plain. cbn [orb forallb]. unfold target_db. cbn [String.eqb]. unfold authorize_database.
+  cbn [set_priv_user u_admin u_rw u_privs].
+  rewrite Hna, Hnr, lookup_set_key_same. cbn [orb].
   assert (priv_eqb want NoPriv = false) as ->. { destruct want; try reflexivity. congruence. }
   cbn [orb]. rewrite !andb_true_r. destruct (priv_eqb p want || priv_eqb p AllPriv); reflexivity.
 Qed.
+
+(* ------------------------------------------------------------------------------------------------------------ *)
+(* Log-store listings: GET /api/v1/repository returns exactly the repositories the user may read or write *)
+
+Lemma listing_exact_lemma : forall u dbs d,
+  In d (visible_repositories u dbs) <-> In d dbs /\ (has_priv u ReadPriv d \/ has_priv u WritePriv d).
+Proof.
+  intros u dbs d. unfold visible_repositories. rewrite filter_In, can_see_iff. unfold can_see_spec. tauto.
+Qed.
+
+Lemma listing_nodup_lemma : forall u dbs, NoDup dbs -> NoDup (visible_repositories u dbs).
+Proof. intros u dbs H. unfold visible_repositories. apply NoDup_filter. exact H. Qed.
+
+(* order is kept: the listing is the catalogue with the invisible entries removed, nothing else *)
+Lemma listing_cons_lemma : forall u d dbs,
+  visible_repositories u (d :: dbs) = if can_see u d then d :: visible_repositories u dbs else visible_repositories u dbs.
+Proof. reflexivity. Qed.
+
+Lemma listing_served_lemma : forall sh cfg us r dbs rq u,
+  auth_enabled cfg = true -> admin_exists us = true -> authenticated sh r = true -> always_rejects r = false ->
+  valid_creds cfg us (rq_creds rq) u ->
+  serve sh cfg us r (KListRepos dbs) rq = (200, [EffList (visible_repositories u dbs)]).
+Proof.
+  intros sh cfg us r dbs rq u Ha Hadm Hauth Hrej Hv. unfold serve. rewrite Hrej, Hauth.
+  rewrite (authenticate_pass_complete _ _ _ _ Ha Hadm Hv). cbn [inner]. rewrite Ha. reflexivity.
+Qed.
+
+Lemma admin_sees_all_lemma : forall u dbs, u_admin u = true -> visible_repositories u dbs = dbs.
+Proof.
+  intros u dbs H. unfold visible_repositories. induction dbs as [|d dbs IH]; [reflexivity|].
+  cbn [filter]. unfold can_see at 1, authorize_database. rewrite H. cbn [orb]. rewrite IH. reflexivity.
+Qed.
+
+Lemma nobody_sees_nothing_lemma : forall u dbs, u_admin u = false -> u_rw u = false -> u_privs u = [] ->
+  visible_repositories u dbs = [].
+Proof.
+  intros u dbs Ha Hr Hp. unfold visible_repositories. induction dbs as [|d dbs IH]; [reflexivity|].
+  cbn [filter]. unfold can_see at 1, authorize_database. rewrite Ha, Hr, Hp. cbn. exact IH.
+Qed.
+
+(* what user n sees after its privilege on d was set to p: d iff p is not the empty privilege, every other repository
+   as before *)
+Definition see_after (u : user) (d : string) (p : priv) (x : string) : bool :=
+  if String.eqb x d then negb (priv_eqb p NoPriv) else can_see u x.
+
+Lemma can_see_set_same : forall u d p, u_admin u = false -> u_rw u = false ->
+  can_see (set_priv_user u d p) d = negb (priv_eqb p NoPriv).
+Proof.
+  intros u d p Ha Hr. unfold can_see, authorize_database, set_priv_user. cbn [u_admin u_rw u_privs].
+  rewrite Ha, Hr, lookup_set_key_same. destruct p; reflexivity.
+Qed.
+
+Lemma visible_after_set : forall u d p dbs, u_admin u = false -> u_rw u = false ->
+  visible_repositories (set_priv_user u d p) dbs = filter (see_after u d p) dbs.
+Proof.
+  intros u d p dbs Ha Hr. unfold visible_repositories. apply filter_ext. intro x. unfold see_after.
+  destruct (String.eqb x d) eqn:E.
+  - apply String.eqb_eq in E. subst x. apply can_see_set_same; assumption.
+  - apply can_see_other_db. apply str_eqb_false. exact E.
+Qed.
+
+Lemma listing_after_grant_lemma : forall sh cfg us r n d p u c x dbs,
+  auth_enabled cfg = true -> admin_exists us = true -> authenticated sh r = true -> always_rejects r = false ->
+  authenticate cfg us c = Pass (Some u) -> u_name u = n -> u_admin u = false -> u_rw u = false ->
+  serve sh cfg (grant us n d p) r (KListRepos dbs) (mk_request c x) = (200, [EffList (filter (see_after u d p) dbs)]).
+Proof.
+  intros sh cfg us r n d p u c x dbs Ha Hadm Hauth Hrej E Hn Hna Hnr. unfold serve, grant. rewrite Hrej, Hauth.
+  rewrite authenticate_set_privilege. cbn [rq_creds]. rewrite E. cbn [map_auth]. unfold upd_user. rewrite Hn, String.eqb_refl.
+  cbn [inner]. rewrite Ha. cbn [negb]. rewrite visible_after_set by assumption. reflexivity.
+Qed.
+
+(* ------------------------------------------------------------------------------------------------------------ *)
+(* Accounts with partition privileges (UserInfo.Rwuser) *)
+
+Lemma rw_authorize_database : forall u p d, u_rw u = true -> authorize_database u p d = true.
+Proof. intros u p d H. unfold authorize_database. rewrite H. rewrite orb_true_r. reflexivity. Qed.
+
+Lemma rw_sees_all : forall u dbs, u_rw u = true -> visible_repositories u dbs = dbs.
+Proof.
+  intros u dbs H. unfold visible_repositories. induction dbs as [|d dbs IH]; [reflexivity|].
+  cbn [filter]. unfold can_see at 1. rewrite (rw_authorize_database _ _ _ H). cbn [orb]. rewrite IH. reflexivity.
+Qed.
+
+(* per-database privileges mean nothing for such an account: GRANT / REVOKE never changes what it may do *)
+Lemma rw_privileges_irrelevant : forall cfg k rq u d p, u_rw u = true ->
+  inner cfg k rq (Some (set_priv_user u d p)) = inner cfg k rq (Some u).
+Proof.
+  intros cfg k rq u d p H.
+  assert (u_rw (set_priv_user u d p) = true) as H' by exact H.
+  destruct k as [|q| | | |dbs|]; cbn [inner]; try reflexivity; destruct (negb (auth_enabled cfg)); try reflexivity.
+  - assert (authorize_query (set_priv_user u d p) (rq_db rq) q = authorize_query u (rq_db rq) q) as ->; [|reflexivity].
+    unfold authorize_query. cbn [set_priv_user u_admin]. f_equal. induction q as [|s q IH]; [reflexivity|].
+    cbn [forallb]. rewrite IH. unfold authorize_stmt. cbn [set_priv_user u_rw]. rewrite H. reflexivity.
+  - rewrite !rw_authorize_database by assumption. reflexivity.
+  - unfold can_see. rewrite !rw_authorize_database by assumption. reflexivity.
+  - rewrite !rw_sees_all by assumption. reflexivity.
+Qed.
+
+(* it is not an administrator: the control endpoints refuse it *)
+Lemma rw_not_unrestricted : forall cfg rq u, auth_enabled cfg = true -> u_admin u = false ->
+  inner cfg KAdminOnly rq (Some u) = (403, []).
+Proof. intros cfg rq u Ha Hna. cbn [inner]. rewrite Ha, Hna. reflexivity. Qed.
+
+(* statements: an entry without the Rwuser flag refuses it unless the statement's own case lets it through *)
+Lemma rw_refused_by_unflagged_entry : forall u db s, u_rw u = true -> u_admin u = false ->
+  In RAdmin s -> ~ In RRwAllow s -> authorize_query u db [s] = false.
+Proof.
+  intros u db s Hr Ha Hin Hno. unfold authorize_query. rewrite Ha. cbn [orb forallb]. rewrite andb_true_r.
+  unfold authorize_stmt. rewrite Hr. destruct (authorize_stmt_rw s) eqn:E; [|reflexivity].
+  apply authorize_stmt_rw_spec in E. destruct E as [X|[_ X]]; contradiction.
+Qed.
+
+Lemma rw_refused_by_case : forall u db s, u_rw u = true -> u_admin u = false ->
+  In RRwDeny s -> ~ In RRwAllow s -> authorize_query u db [s] = false.
+Proof.
+  intros u db s Hr Ha Hin Hno. unfold authorize_query. rewrite Ha. cbn [orb forallb]. rewrite andb_true_r.
+  unfold authorize_stmt. rewrite Hr. destruct (authorize_stmt_rw s) eqn:E; [|reflexivity].
+  apply authorize_stmt_rw_spec in E. destruct E as [X|[X _]]; contradiction.
+Qed.
+
+Lemma rw_database_statements_allowed : forall u db s, u_rw u = true ->
+  (forall rp, In rp s -> exists d p, rp = RDb d p) -> authorize_query u db [s] = true.
+Proof.
+  intros u db s Hr Hall. unfold authorize_query. apply orb_true_iff. right. cbn [forallb]. rewrite andb_true_r.
+  unfold authorize_stmt. rewrite Hr. apply authorize_stmt_rw_spec. right. split; intro X; destruct (Hall _ X) as (d & p & E); discriminate.
+Qed.
+
+(* the markers mean nothing for an ordinary user *)
+Lemma markers_ignored_by_plain : forall u db s m, u_rw u = false -> (m = RRwAllow \/ m = RRwDeny) ->
+  authorize_stmt u db (s ++ [m])%list = authorize_stmt u db s.
+Proof.
+  intros u db s m Hr Hm. unfold authorize_stmt. rewrite Hr. unfold authorize_stmt_plain. rewrite forallb_app. cbn [forallb].
+  destruct Hm as [-> | ->]; rewrite !andb_true_r; reflexivity.
+Qed.
+
+Lemma rwuser_rules_match_check : list_eqb rwrule_eqb gen_rw_rules model_rw_rules = true /\
+  find_rwrule model_rw_rules "<tail>" = Some rw_tail_expected.
+Proof. vm_compute. split; reflexivity. Qed.
